@@ -547,18 +547,18 @@ func sameOrigin(a, b ssa.Value) bool {
 
 // lbConstReviewed: constant-index reads whose guard is relational or established elsewhere.
 var lbConstReviewed = map[string]string{
-	"constindex|formats/json.(*scanner).newDocumentErrorAtCharacter|[]rune(…)[0]":                         "the runes come from data[index-1:], which holds at least the byte just consumed (index >= 1 after Next's increment)",
-	"constindex|notations/jschema/internal/scanner.(*Scanner).newDocumentErrorAtCharacter|[]rune(…)[0]":   "same: data[index-1:] is never empty inside a step function",
-	"constindex|rules/enum.(*scanner).newDocumentErrorAtCharacter|[]rune(…)[0]":                           "same: data[index-1:] is never empty inside a step function",
-	"constindex|internal/json.(*Number).trimLeadingZerosInTheIntegerPart|.nat[0]":                         "the loop runs at most len(nat)-exp times (exp <= len(nat) is checked first) and removes one byte per turn, so nat is not empty when read",
-	"constindex|notations/jschema/internal/schema/constraint.(*TypesList).AddNameWithASTNode|name[0]":     "names come from or-items and type shortcuts; the first name of a shortcut starts with @ and once hasUserTypes is true the index is short-circuited; or-items are validated as known types before they are recorded (an empty one is reported as code 102)",
-	"constindex|notations/jschema/internal/loader.checkBranchNodeWithOrConstraint|element of Names()[0]":                   "same names as above: an empty or-item is rejected (code 102) before this check runs",
-	"constindex|bytes.(Bytes).ParseInt|b[0]":                                                              "called with the exponent text of a scanned numeral (value[expBegin:]), which starts at a sign or digit",
-	"constindex|bytes.(Bytes).TrimSquareBrackets|b[0]":                                                    "under lastCharIndex > 0 in the same condition (len(b) >= 2)",
-	"constindex|notations/jschema/internal/schema/constraint.parseBytes|b[8]":                             "after the switch on len(b): every surviving case leaves b with exactly 36 bytes",
-	"constindex|notations/jschema/internal/schema/constraint.parseBytes|b[13]":                            "same: len(b) == 36",
-	"constindex|notations/jschema/internal/schema/constraint.parseBytes|b[18]":                            "same: len(b) == 36",
-	"constindex|notations/jschema/internal/schema/constraint.parseBytes|b[23]":                            "same: len(b) == 36",
+	"constindex|formats/json.(*scanner).newDocumentErrorAtCharacter|[]rune(…)[0]":                        "the runes come from data[index-1:], which holds at least the byte just consumed (index >= 1 after Next's increment)",
+	"constindex|notations/jschema/internal/scanner.(*Scanner).newDocumentErrorAtCharacter|[]rune(…)[0]":  "same: data[index-1:] is never empty inside a step function",
+	"constindex|rules/enum.(*scanner).newDocumentErrorAtCharacter|[]rune(…)[0]":                          "same: data[index-1:] is never empty inside a step function",
+	"constindex|internal/json.(*Number).trimLeadingZerosInTheIntegerPart|.nat[0]":                        "the loop runs at most len(nat)-exp times (exp <= len(nat) is checked first) and removes one byte per turn, so nat is not empty when read",
+	"constindex|notations/jschema/internal/schema/constraint.(*TypesList).AddNameWithASTNode|name[0]":    "names come from or-items and type shortcuts; the first name of a shortcut starts with @ and once hasUserTypes is true the index is short-circuited; or-items are validated as known types before they are recorded (an empty one is reported as code 102)",
+	"constindex|notations/jschema/internal/loader.checkBranchNodeWithOrConstraint|element of Names()[0]": "same names as above: an empty or-item is rejected (code 102) before this check runs",
+	"constindex|bytes.(Bytes).ParseInt|b[0]":                                                             "called with the exponent text of a scanned numeral (value[expBegin:]), which starts at a sign or digit",
+	"constindex|bytes.(Bytes).TrimSquareBrackets|b[0]":                                                   "under lastCharIndex > 0 in the same condition (len(b) >= 2)",
+	"constindex|notations/jschema/internal/schema/constraint.parseBytes|b[8]":                            "after the switch on len(b): every surviving case leaves b with exactly 36 bytes",
+	"constindex|notations/jschema/internal/schema/constraint.parseBytes|b[13]":                           "same: len(b) == 36",
+	"constindex|notations/jschema/internal/schema/constraint.parseBytes|b[18]":                           "same: len(b) == 36",
+	"constindex|notations/jschema/internal/schema/constraint.parseBytes|b[23]":                           "same: len(b) == 36",
 }
 
 func runLBConst(c *load.Ctx, r *report.RuleResult) {
